@@ -274,7 +274,7 @@ def gen_top(rng, kind):
     if k < 0.34:
         return ('call',)
     if k < 0.52:
-        return ('direct', rng.choice(['forward', 'st', 'obs', 'read']))
+        return ('direct', rng.choice(['forward', 'st', 'obs', 'read', 'bad', 'bad']))
     # values repeat often, so that a time tensor the caller keeps is assigned more than once
     tv = lambda: rng.choice([0, 3, 7]) if rng.random() < 0.6 else rng.randint(-8, 40)
     if k < 0.66:
@@ -322,6 +322,13 @@ def apply_top(torch, kind, s, x, u, o, cache=None):
                 s.state_transition(x, u, s.systime) if kind == 'NLS' else s.state_transition(x, u)
             elif how == 'obs':
                 s.observation(x, u, s.systime) if kind == 'NLS' else s.observation(x, u)
+            elif how == 'bad':
+                # a call that fails inside forward (malformed state) and is caught by the caller, who goes on using the
+                # object: no step was completed, so - like the other direct uses - it must leave the time alone
+                try:
+                    s(None, u)
+                except Exception:
+                    pass
             else:
                 int(s.systime)
                 if kind != 'NLS':
